@@ -138,11 +138,14 @@ def normal_form(name, params, vin, vout, obj=None):
     if name == "StandarScaler":
         mu = sum(o) / len(o)
         # rounding of the mean is relative to the size of the values (without scaling the output keeps that size)
-        if params["with_mean"] and abs(mu) > tol * max(1, max(abs(x) for x in o)):
+        # ... and to how far the values sit from zero compared with their spread (x - mean cancels that many digits)
+        spread = max(i) - min(i)
+        cancel = (CL.D("1e-13") * len(i) * max(abs(x) for x in i) / spread) if spread > 0 else CL.D(0)
+        if params["with_mean"] and abs(mu) > max(tol * max(1, max(abs(x) for x in o)), cancel):
             return f"mean {mu}"
         if params["with_std"]:
             var = sum((x - mu) ** 2 for x in o) / len(o)
-            if abs(var - 1) > tol:
+            if abs(var - 1) > max(tol, 4 * cancel):
                 return f"variance {var}"
     if name in ("CenitDistanceMatrixScaler",):
         best = max(i) if obj == 1 else min(i)
